@@ -519,6 +519,38 @@ def ground_facts(fs, byte_arrays=()):
             continue
         seen.add(g.get_id())
         facts.append(z3.And(g >= 0, g <= 255))
+    facts.extend(_mask_test_facts(fs))
+    return facts
+
+
+def _pow2_arg(t):
+    """k if t is pow2(k) (possibly written 1 * pow2(k))"""
+    t = z3.simplify(t)
+    if z3.is_app(t) and t.decl().kind() == z3.Z3_OP_UNINTERPRETED and t.decl().name() == 'pow2' and t.num_args() == 1:
+        return t.arg(0)
+    return None
+
+
+def _mask_test_facts(fs):
+    """rule mask-test-two-bits (lean/Bitops.lean, theorem mask_test_two_bits, all naturals): for the uninterpreted
+    bit operators of rule 6, `x & (2^a | 2^b) == (2^a | 2^b)` holds exactly when bits a and b of x are set; instantiated
+    at the occurring terms bitand(x, bitor(pow2(a), pow2(b))), under x, a, b >= 0"""
+    facts, seen = [], set()
+    for t in _walk(fs):
+        if not (z3.is_app(t) and t.decl().kind() == z3.Z3_OP_UNINTERPRETED and t.decl().name() == 'bitand' and t.num_args() == 2):
+            continue
+        if t.get_id() in seen or _has_var(t):
+            continue
+        seen.add(t.get_id())
+        for x, m in ((t.arg(0), t.arg(1)), (t.arg(1), t.arg(0))):
+            if not (z3.is_app(m) and m.decl().kind() == z3.Z3_OP_UNINTERPRETED and m.decl().name() == 'bitor' and m.num_args() == 2):
+                continue
+            a, b = _pow2_arg(m.arg(0)), _pow2_arg(m.arg(1))
+            if a is None or b is None:
+                continue
+            bitops._fired('mask-test-two-bits')
+            facts.append(z3.Implies(z3.And(x >= 0, a >= 0, b >= 0),
+                                    (t == m) == z3.And((x / bitops.pow2(a)) % 2 == 1, (x / bitops.pow2(b)) % 2 == 1)))
     return facts
 
 
@@ -723,6 +755,16 @@ def discharge(res, timeout_ms=10000, want_models=True, second_opinion=False):
                     rec['model']['__synth__'] = layout_instances(s.model(), list(ob.pc) + [ob.goal])
                 except Exception as e:
                     rec['model'] = {'error': str(e)}
+        if verdict == 'refuted':
+            # rule 6 of the bit-operator encoding (DESIGN 2.4): a counter-model that interprets an UNINTERPRETED bit operator
+            # is not a counterexample of the code; unless it replays natively the obligation is undecided, never violated
+            try:
+                names = {t.decl().name() for t in _walk(list(ob.pc) + [ob.goal])
+                         if z3.is_app(t) and t.decl().kind() == z3.Z3_OP_UNINTERPRETED}
+                if names & {'bitand', 'bitor', 'bitxor'}:
+                    rec['rule6'] = sorted(names & {'bitand', 'bitor', 'bitxor'})
+            except Exception:
+                pass
         if verdict == 'undecided':
             try:
                 m = s.model()
